@@ -111,6 +111,28 @@ class Project:
         self.own_dir = workdir is None
         self.dir = workdir or tempfile.mkdtemp(prefix='vf_farm_')
         self.files = None  # [(filename, contents, hash)]
+        self.twin_cc = None  # source file of the companion shell (see add_twin)
+        self.twin_names = set()
+
+    def add_twin(self):
+        """A companion shell for the same encapsulee - other facilities origin, other file / struct
+        name, same support files - whose object file is linked *ahead of* the shell under test: a
+        program may hold several shells (the CREATE shell of a subsystem next to IMPORT shells that
+        share its dispatcher), and none may change what another does.  Its own build outcome is of
+        no concern here (C13); only its shell header and source are written."""
+        spec = dict(self.spec, origin='IMPORT' if self.spec['origin'] == 'CREATE' else 'CREATE',
+                    suffix=self.spec['suffix'] + 'Twin')
+        spec.pop('_prior', None)
+        kind, res = cfgspec.outcome(spec, model=self.sm['model'])
+        if kind != 'ok':
+            return
+        own = {f[0] for f in self.files}
+        for fn, contents, _ in res:
+            if fn not in own:
+                self.write(fn, contents)
+                self.twin_names.add(fn)
+                if fn.endswith('.cc'):
+                    self.twin_cc = fn
 
     def cleanup(self):
         if self.own_dir:
@@ -148,7 +170,7 @@ class Project:
 
     @property
     def generated_names(self):
-        return {f[0] for f in self.files}
+        return {f[0] for f in self.files} | self.twin_names
 
     def compile(self, sources, out, san='none', compiler=None, extra=()):
         cc = compiler or ('clang++-14' if san == 'tsan' else 'g++')
@@ -174,7 +196,7 @@ class Project:
     def build_driver(self, san='none'):
         exe = f'driver_{san}'
         shell_cc = driver.shell_name(self.spec) + '.cc'
-        self.compile([shell_cc, 'main.cc'], exe, san=san)
+        self.compile(([self.twin_cc] if self.twin_cc else []) + [shell_cc, 'main.cc'], exe, san=san)
         return exe
 
     def run_driver(self, exe, script, san='none', timeout=120):
